@@ -3,7 +3,7 @@
     (no Extract Constant, no mapping to OCaml int). *)
 Require Import ExtrOcamlBasic.
 From Coq Require Import NArith Decimal DecimalN.
-From MM Require Import Base.Prelude Base.Families Sketch.SketchModel Unsync.UModel Sync.SModel Config.Builder Conc.Cell Conc.HK.
+From MM Require Import Base.Prelude Base.Families Sketch.SketchModel Unsync.UModel Sync.SModel Config.Builder Conc.Cell Conc.HK Deque.DequePtr Deque.DequeAbs.
 
 Definition sk_table_list (sk : sketch) : list (N * N) := map_to_list (sk_table sk).
 Definition u_map_list (s : ustate) : list (N * uentry) := map_to_list (u_map s).
@@ -18,4 +18,4 @@ Extraction "model.ml"
   hasher_of weigher_of pred_of
   sk_empty sk_step frequency sk_table_list sk_sample sk_mask sk_tlen sk_size
   urun_init ustep u_map_list
-  srun_init sstep s_map_list hk_accepts hk_accepts_quiescent cell_empty cell_step build new_cache policy get_ve get_info live_ves s_infos_list s_ves_list sweigh map_has_info.
+  srun_init sstep s_map_list pd_empty dq_step dq_walk dq_drop in_contractb hk_accepts hk_accepts_quiescent cell_empty cell_step build new_cache policy get_ve get_info live_ves s_infos_list s_ves_list sweigh map_has_info.
